@@ -34,14 +34,14 @@ struct Shared { written: Vec<u8>, flushes: usize, shutdowns: usize }
 struct ScriptedTokio { revs: VecDeque<Ev>, wevs: VecDeque<WEv>, shared: Arc<Mutex<Shared>>, calls: usize }
 
 impl AsyncRead for ScriptedTokio {
-    fn poll_read(mut self: Pin<&mut Self>, _: &mut Context<'_>, buf: &mut ReadBuf<'_>) -> Poll<io::Result<()>> {
+    fn poll_read(mut self: Pin<&mut Self>, cx: &mut Context<'_>, buf: &mut ReadBuf<'_>) -> Poll<io::Result<()>> {
         // a tokio reader may fill the buffer in either of two ways: `put_slice`, or initialise the whole unfilled part first
         // and then advance by what it read (so that initialised > filled, also at EOF). Every other call does the latter.
         self.calls += 1;
         let init_first = self.calls % 2 == 0;
         match self.revs.pop_front() {
             None | Some(Ev::Eof) => { if init_first { let _ = buf.initialize_unfilled(); } Poll::Ready(Ok(())) }
-            Some(Ev::Pending) => Poll::Pending,
+            Some(Ev::Pending) => { cx.waker().wake_by_ref(); Poll::Pending }
             Some(Ev::Err) => Poll::Ready(Err(io::Error::new(io::ErrorKind::ConnectionReset, "scripted"))),
             Some(Ev::Data(bs)) => {
                 let n = bs.len().min(buf.remaining());
@@ -53,20 +53,20 @@ impl AsyncRead for ScriptedTokio {
     }
 }
 impl ScriptedTokio {
-    fn accept(&mut self, data: &[u8]) -> Poll<io::Result<usize>> {
+    fn accept(&mut self, cx: &mut Context<'_>, data: &[u8]) -> Poll<io::Result<usize>> {
         match self.wevs.pop_front() {
             None => { self.shared.lock().unwrap().written.extend_from_slice(data); Poll::Ready(Ok(data.len())) }
             Some(WEv::Acc(n)) => { let k = n.min(data.len()); self.shared.lock().unwrap().written.extend_from_slice(&data[..k]); Poll::Ready(Ok(k)) }
-            Some(WEv::Pending) => Poll::Pending,
+            Some(WEv::Pending) => { cx.waker().wake_by_ref(); Poll::Pending }
             Some(WEv::Err) => Poll::Ready(Err(io::Error::new(io::ErrorKind::BrokenPipe, "scripted"))),
         }
     }
 }
 impl AsyncWrite for ScriptedTokio {
-    fn poll_write(mut self: Pin<&mut Self>, _: &mut Context<'_>, buf: &[u8]) -> Poll<io::Result<usize>> { self.accept(buf) }
-    fn poll_write_vectored(mut self: Pin<&mut Self>, _: &mut Context<'_>, bufs: &[IoSlice<'_>]) -> Poll<io::Result<usize>> {
+    fn poll_write(mut self: Pin<&mut Self>, cx: &mut Context<'_>, buf: &[u8]) -> Poll<io::Result<usize>> { self.accept(cx, buf) }
+    fn poll_write_vectored(mut self: Pin<&mut Self>, cx: &mut Context<'_>, bufs: &[IoSlice<'_>]) -> Poll<io::Result<usize>> {
         let all: Vec<u8> = bufs.iter().flat_map(|b| b.iter().copied()).collect();
-        self.accept(&all)
+        self.accept(cx, &all)
     }
     fn is_write_vectored(&self) -> bool { true }
     fn poll_flush(self: Pin<&mut Self>, _: &mut Context<'_>) -> Poll<io::Result<()>> { self.shared.lock().unwrap().flushes += 1; Poll::Ready(Ok(())) }
@@ -126,11 +126,21 @@ fn build_stack(layers: &[&str], inner: ScriptedTokio) -> Option<BoxIo> {
     match cur { Level::Tok(io) => Some(io), Level::Hyp(_) => None }
 }
 
+thread_local! { static WOKEN: std::cell::Cell<bool> = const { std::cell::Cell::new(false) }; static SCRIPTED: std::cell::Cell<bool> = const { std::cell::Cell::new(false) }; }
+struct FlagWake;
+impl std::task::Wake for FlagWake { fn wake(self: std::sync::Arc<Self>) { WOKEN.with(|w| w.set(true)); } }
+
+/// one poll with a waker that notes whether anybody was given it and used it: every scripted `Pending` at the bottom of the
+/// stack wakes the waker it is handed, so an adapter that answers `Pending` without the flag set either invented the
+/// `Pending` or polled its inner stream with somebody else's waker - the caller would never be polled again
 fn cx_noop<R>(f: impl FnOnce(&mut Context<'_>) -> R) -> R {
-    let waker = futures_util::task::noop_waker();
+    WOKEN.with(|w| w.set(false));
+    let waker = std::task::Waker::from(std::sync::Arc::new(FlagWake));
     let mut cx = Context::from_waker(&waker);
     f(&mut cx)
 }
+/// (only over the scripted bottom: real pipes register wakers where the harness cannot see them)
+fn pending_token() -> String { if WOKEN.with(|w| w.get()) || !SCRIPTED.with(|w| w.get()) { "P".into() } else { "Pl".into() } }
 
 fn do_read<T: AsyncRead + Unpin>(io: &mut T, cap: usize) -> String {
     let k = cap % 4; // caller's pre-filled bytes
@@ -139,7 +149,7 @@ fn do_read<T: AsyncRead + Unpin>(io: &mut T, cap: usize) -> String {
     let pattern: Vec<u8> = (0..k).map(|i| 0xA0 + i as u8).collect();
     rb.put_slice(&pattern);
     match cx_noop(|cx| Pin::new(io).poll_read(cx, &mut rb)) {
-        Poll::Pending => "P".into(),
+        Poll::Pending => pending_token(),
         Poll::Ready(Err(_)) => "E".into(),
         Poll::Ready(Ok(())) => {
             if rb.filled()[..k] != pattern[..] { return "Xprefill-corrupted".into(); }
@@ -148,10 +158,10 @@ fn do_read<T: AsyncRead + Unpin>(io: &mut T, cap: usize) -> String {
     }
 }
 fn show_count(p: Poll<io::Result<usize>>) -> String {
-    match p { Poll::Pending => "P".into(), Poll::Ready(Err(_)) => "E".into(), Poll::Ready(Ok(n)) => format!("n{n}") }
+    match p { Poll::Pending => pending_token(), Poll::Ready(Err(_)) => "E".into(), Poll::Ready(Ok(n)) => format!("n{n}") }
 }
 fn show_unit(p: Poll<io::Result<()>>) -> String {
-    match p { Poll::Pending => "P".into(), Poll::Ready(Err(_)) => "E".into(), Poll::Ready(Ok(())) => "ok".into() }
+    match p { Poll::Pending => pending_token(), Poll::Ready(Err(_)) => "E".into(), Poll::Ready(Ok(())) => "ok".into() }
 }
 fn do_op<T: AsyncRead + AsyncWrite + Unpin>(io: &mut T, op: &str) -> String {
     if op == "f" { return show_unit(cx_noop(|cx| Pin::new(io).poll_flush(cx))); }
@@ -243,7 +253,7 @@ async fn run_pipe(kind: usize, cap: usize, ops: &[&str]) -> String {
 
 pub fn run(toks: &[&str]) -> String {
     match toks.first().copied() {
-        Some("script") => run_script(&toks[1..]),
+        Some("script") => { SCRIPTED.with(|w| w.set(true)); let r = run_script(&toks[1..]); SCRIPTED.with(|w| w.set(false)); r }
         Some("pipe") if toks.len() >= 4 => {
             let kind: usize = toks[1].parse().unwrap_or(0);
             let cap: usize = toks[2].parse().unwrap_or(16);
